@@ -109,8 +109,12 @@ P = {
   "Lean 4 render/parse round-trip and typed-value proofs + Spec judge + correspondence on rendered documents"),
  "C17": ("proto", True,
   "On the implementation: for pairs (old, new) of service/rule tables (adds, removals, in-place edits) the daemon reloaded from old to new is compared "
-  "with a daemon started on new, on probe clients, up to serials/statistics/slot order; Lean lemmas: the model rebuilds its service view and rule "
-  "vector from the merged section whenever it changed.", "differential runs (reload vs fresh start) of the implementation + Lean lemmas on config delivery"),
+  "with a daemon started on new, on probe clients, up to serials/statistics/slot order (also through the real SIGUSR1 path). Lean theorems on the "
+  "model: the service view and rule vector are rebuilt from the merged section whenever it changed (C17_delivery); with no reference outstanding the "
+  "rescan leaves exactly the services the section names with a known protocol, each with that protocol - the same set as a fresh start "
+  "(C17_services, C17_services_fresh); the rule list equals a fresh start's up to hit counters (C17_rules_fresh). That behaviour depends on the "
+  "service table only up to slot order is not proved. One open finding is recorded (F33: a name respelled in place keeps its old spelling).",
+  "differential runs (reload vs fresh start) of the implementation + Lean theorems characterising the tables after a reload"),
  "C18": ("logeng", True,
   "Lean 4 theorems on the model of src/log.c: after any reachable history of (re)loads the destinations a message of facility f and severity s "
   "reaches are exactly those the current logs section routes (f, s) to, as a multiset, independent of earlier sections (C18, C18_history, "
